@@ -14,8 +14,10 @@ def main():
     if len(sys.argv) < 2:
         print(__doc__)
         return 2
-    if os.environ.get("PYTHONHASHSEED") != "0":
-        env = dict(os.environ, PYTHONHASHSEED="0")
+    if os.environ.get("PYTHONHASHSEED") != "0" or os.environ.get("OPENBLAS_NUM_THREADS") != "1":
+        # single-threaded BLAS: the library only does 3x3 / 4x4 algebra and OpenBLAS worker threads spinning on that
+        # cost more system time than the computation itself (and we shard over processes anyway)
+        env = dict(os.environ, PYTHONHASHSEED="0", OPENBLAS_NUM_THREADS="1", OMP_NUM_THREADS="1", MKL_NUM_THREADS="1")
         os.execve(sys.executable, [sys.executable, os.path.abspath(__file__)] + sys.argv[1:], env)
     sys.path.insert(0, ROOT)
     from vlib import boot
